@@ -226,23 +226,42 @@ class Repair(Suite):
         out = []
         big = tier == "thorough" or widen
         k = 0
-        for _ in range(120 if big else 30):
+        for _ in range(400 if big else 120):
             n = rng.choice([2, 3, 5, 8, 14, 30])
             p = gen.parents_sorted(rng, n, gen.pick_shape(rng, k)); k += 1
             n = len(p)
-            nroots = rng.choice([1, 2, 2, 3, 4])
+            nroots = rng.choice([1, 2, 2, 3, 3, 4, 5])
             for _ in range(nroots - 1):
                 if n > 1:
                     p[rng.randrange(1, n)] = -1
             base = rng.choice([0, 1, 1, 7])
-            # general position: distinct lattice points with pairwise distinct squared distances from every node
+            # lattice points; the argmin of every non-first root must be unique (no distance ties in its row)
+            layout = rng.choice(["cloud", "cloud", "interleaved"])
             pts = []
-            while len(pts) < n:
-                c = (rng.randint(-30, 30), rng.randint(-30, 30), rng.randint(-30, 30))
-                if c not in pts:
-                    pts.append(c)
+            if layout == "cloud":
+                while len(pts) < n:
+                    c = (rng.randint(-30, 30), rng.randint(-30, 30), rng.randint(-30, 30))
+                    if c not in pts:
+                        pts.append(c)
+            else:
+                # fragments laid side by side and interleaved along x, the first root's fragment far away:
+                # a later root's nearest node is then often an inner node of a fragment that was linked before
+                comp, _ = components(n, p)
+                order = sorted(set(comp), key=lambda c: comp.index(c))
+                slot = {c: k for k, c in enumerate(order)}
+                cnt = {c: 0 for c in order}
+                for i in range(n):
+                    c = comp[i]
+                    k = cnt[c]; cnt[c] += 1
+                    if slot[c] == 0:
+                        pts.append((-500 - 3 * k, rng.randint(-2, 2), rng.randint(-2, 2)))
+                    else:
+                        pts.append((100 + len(order) * 2 * k + 2 * slot[c] + rng.choice([0, 1]), 7 * slot[c] % 5 - 2 + rng.choice([0, 1]), rng.randint(-1, 1)))
+                if len(set(pts)) < n:
+                    continue
             d2 = lambda a, b: sum((x - y) ** 2 for x, y in zip(a, b))
-            if any(len({d2(pts[i], pts[j]) for j in range(n) if j != i}) < n - 1 for i in range(n)):
+            rts = [i for i in range(n) if p[i] == -1][1:]
+            if any(len({d2(pts[i], pts[j]) for j in range(n) if j != i}) < n - 1 for i in rts):
                 continue
             out.append({"class": f"roots{sum(1 for x in p if x == -1)}/base{base}", "ids": [i + base for i in range(n)],
                         "pids": [-1 if x == -1 else x + base for x in p], "types": [rng.randint(0, 7) for _ in range(n)],
